@@ -612,6 +612,53 @@ func ruleCatalogue() []ruleCase {
 }
 
 // c19: OpenAPI constraints accept exactly what the declared validation rules accept.
+
+// ruleUnit is one proto package of the rule catalogue: message R<i> {<kind> val = 1 [rules]; string other = 2;}
+// per rule case, a message AllRules with one field per R<i>, and a service with one POST RPC over AllRules.
+type ruleUnit struct {
+	pkg, svc string
+	cat      []ruleCase
+	f        *spec.File
+}
+
+func buildRuleUnit(pkg, goName, svc string, cat []ruleCase) *ruleUnit {
+	return buildRuleUnitX(pkg, goName, svc, cat, false)
+}
+
+// buildRuleUnitX: with perRPC every R<i> is also the request and response of its own POST RPC
+// Check<i> (so that it travels as a top-level message).
+func buildRuleUnitX(pkg, goName, svc string, cat []ruleCase, perRPC bool) *ruleUnit {
+	f := &spec.File{Path: strings.ReplaceAll(pkg, ".", "/") + "/rules.proto", Package: pkg, GoImport: "lab/gen/" + goName, GoName: goName}
+	all := &spec.Message{Name: "AllRules"}
+	for i, rc := range cat {
+		fld := spec.F("val", 1, rc.Kind)
+		switch rc.Card {
+		case spec.Repeated:
+			fld.Rep()
+		case spec.Map:
+			fld.MapOf(spec.String)
+		case spec.Optional:
+			fld.Opt()
+		}
+		fld.Ann.Rules = rc.Rules
+		if rc.Number64 {
+			fld.Ann.Int64Enc = 2
+		}
+		mn := fmt.Sprintf("R%03d", i)
+		f.Messages = append(f.Messages, &spec.Message{Name: mn, Fields: []*spec.Field{fld, spec.F("other", 2, spec.String)}})
+		all.Fields = append(all.Fields, spec.FM(fmt.Sprintf("r%03d", i), int32(i+1), "."+pkg+"."+mn))
+	}
+	f.Messages = append(f.Messages, all)
+	f.Services = []*spec.Service{{Name: svc, Methods: []*spec.Method{{Name: "Check", In: "." + pkg + ".AllRules", Out: "." + pkg + ".AllRules", HTTP: &spec.HTTP{Path: "/check", Verb: 2}}}}}
+	if perRPC {
+		for i := range cat {
+			mn := fmt.Sprintf(".%s.R%03d", pkg, i)
+			f.Services[0].Methods = append(f.Services[0].Methods, &spec.Method{Name: fmt.Sprintf("Check%03d", i), In: mn, Out: mn, HTTP: &spec.HTTP{Path: fmt.Sprintf("/check/%03d", i), Verb: 2}})
+		}
+	}
+	return &ruleUnit{pkg: pkg, svc: svc, cat: cat, f: f}
+}
+
 func c19(c *Ctx) {
 	c.R.Rule = "abstract case = (rule kind x field kind x rule-value class) x probe value (at, just below, just above every bound; list/map sizes around limits; in/const members and near-misses; code-point lengths with non-BMP characters); " +
 		"non-trivial = both acceptance decisions were computed for the probe: rules(v) by the reference rule evaluator (pvstub) on the real descriptor, schema(json(v)) by python-jsonschema (Draft 2020-12) on the field's schema taken from the emitted document; plus required-list and format-name checks"
@@ -630,36 +677,8 @@ func c19(c *Ctx) {
 	// the same message and field names are declared twice, in two proto packages with DIFFERENT rules
 	// (the twin uses the catalogue rotated by 7), and the documents are generated alone and together
 	// in one invocation in both orders: each document must state its own package's rules
-	type unit struct {
-		pkg, svc string
-		cat      []ruleCase
-		f        *spec.File
-	}
-	build := func(pkg, goName, svc string, cat []ruleCase) *unit {
-		f := &spec.File{Path: strings.ReplaceAll(pkg, ".", "/") + "/rules.proto", Package: pkg, GoImport: "lab/gen/" + goName, GoName: goName}
-		all := &spec.Message{Name: "AllRules"}
-		for i, rc := range cat {
-			fld := spec.F("val", 1, rc.Kind)
-			switch rc.Card {
-			case spec.Repeated:
-				fld.Rep()
-			case spec.Map:
-				fld.MapOf(spec.String)
-			case spec.Optional:
-				fld.Opt()
-			}
-			fld.Ann.Rules = rc.Rules
-			if rc.Number64 {
-				fld.Ann.Int64Enc = 2
-			}
-			mn := fmt.Sprintf("R%03d", i)
-			f.Messages = append(f.Messages, &spec.Message{Name: mn, Fields: []*spec.Field{fld, spec.F("other", 2, spec.String)}})
-			all.Fields = append(all.Fields, spec.FM(fmt.Sprintf("r%03d", i), int32(i+1), "."+pkg+"."+mn))
-		}
-		f.Messages = append(f.Messages, all)
-		f.Services = []*spec.Service{{Name: svc, Methods: []*spec.Method{{Name: "Check", In: "." + pkg + ".AllRules", Out: "." + pkg + ".AllRules", HTTP: &spec.HTTP{Path: "/check", Verb: 2}}}}}
-		return &unit{pkg: pkg, svc: svc, cat: cat, f: f}
-	}
+	type unit = ruleUnit
+	build := buildRuleUnit
 	rot := make([]ruleCase, len(cat))
 	for i := range cat {
 		rot[i] = cat[(i+7)%len(cat)]
